@@ -1,7 +1,7 @@
 """C08 - Ford-Fulkerson returns a maximum flow and a matching minimum cut."""
 import itertools, json, os
 from harness import flowlib
-from harness.common import pmap, lean_query, guard, VERIF, safe_judge
+from harness.common import pmap, lean_query, guard, VERIF, safe_judge, pmap_singles
 from harness.c01 import chunks
 
 LEVEL = "proof"
@@ -135,9 +135,11 @@ def run_batch(R, nets, tag, deadline):
     results = pmap("c08", "impl_batch", cases, deadline=deadline)
     flat = []
     for case, res in zip(cases, results):
-        if "results" not in res:
-            singles = pmap("c08", "impl_batch", [{"nets": [N], "paths": mirror} for N in case["nets"]], deadline=60.0)
-            flat += [s["results"][0] if "results" in s else {"hang": True} for s in singles]
+        if "results" not in res and len(case["nets"]) == 1:
+            flat.append({"hang": True} if "hang" in res else {"exc": res.get("exc", "crash"), "msg": res.get("msg", "")})
+        elif "results" not in res:
+            singles = pmap_singles("c08", "impl_batch", [{"nets": [N], "paths": mirror} for N in case["nets"]], deadline=min(deadline, 20.0), R=R)
+            flat += [s["results"][0] if "results" in s else ({"skipped": True} if "skipped" in s else {"hang": True}) for s in singles]
         else:
             flat += res["results"]
     ff_ans = lean_query([flowlib.lean_ff_line(N) for N in nets])
@@ -197,17 +199,25 @@ def run(R):
               "Non-trivial = max flow > 0 and >= 3 edges; distinct by network.")
     R.assumptions = ["independent Edmonds-Karp is the reference for the maximum-flow value",
                      "the code's dfs_path is modelled by a reachability search whose result is checked at run time in the model"]
+    def many_hangs():
+        # a routine that does not return is reported after a few deadlines, not after one deadline per generated network
+        return sum(1 for v in R.violations if v.get("oracle_verdict") and "non-termination" in str(v.get("oracle_verdict"))) >= 3
     for c in corpus():
+        if many_hangs():
+            break
         run_batch(R, [c["net"]], "corpus", 10.0)
+    if many_hangs():
+        return
     # the code's path search enumerates simple paths (exponential in dense graphs), so sizes stay within the property's
     # quantifier (up to 8 vertices; 9 in the thorough tier): beyond that slowness would be mistaken for non-termination
-    run_batch(R, gen_random(R, 6000 if R.thorough else 900, 9 if R.thorough else 8), "random", 300.0)
+    run_batch(R, gen_random(R, 6000 if R.thorough else 900, 9 if R.thorough else 8), "random", 300.0 if R.thorough else 90.0)
     if R.thorough:
         R.exhaustive = True
         run_batch(R, list(gen_exhaustive3()), "exhaustive3", 120.0)
         for ch in chunks(gen_exhaustive4(), 60000):
             run_batch(R, ch, "exhaustive4", 300.0)
-    run_helper_glue(R, "flow", 600 if R.thorough else 60)
+    if not R.violations:
+        run_helper_glue(R, "flow", 600 if R.thorough else 60)
     if R.corr_breaks and not R.violations:
         search(R)
 
